@@ -177,6 +177,57 @@ def fullFnN (n : Nat) (P : Prog) (d : FnDecl) : Option LNode :=
 
 def fullFn (P : Prog) (d : FnDecl) : Option LNode := fullFnN P.fns.length P d
 
+/-! ### voice programs (statement-level)
+
+The programs of the C07 generator: `dsp() = let c_1 = f_1(k_1); …; let c_m = f_m(k_m); (c_a, c_b, …)`, every `f_i` a named
+function of one argument; the functions are first order and single assignment (`simpleE`: no lambda, no application of a
+closure, no assignment), the program has no globals. -/
+
+mutual
+/-- no lambda, no closure application, no assignment -/
+def simpleE : Expr → Bool
+  | .lit _ => true
+  | .var _ => true
+  | .now => true
+  | .samplerate => true
+  | .self => true
+  | .lam _ _ => false
+  | .app _ _ => false
+  | .assign _ _ _ => false
+  | .un _ a => simpleE a
+  | .proj a _ => simpleE a
+  | .bin _ a b => simpleE a && simpleE b
+  | .letE _ a b => simpleE a && simpleE b
+  | .letTup _ a b => simpleE a && simpleE b
+  | .ite c a b => simpleE c && simpleE a && simpleE b
+  | .tup es => simpleL es
+  | .mem a _ => simpleE a
+  | .delay _ a t _ => simpleE a && simpleE t
+  | .call _ args _ => simpleL args
+def simpleL : List Expr → Bool
+  | [] => true
+  | e :: es => simpleE e && simpleL es
+end
+
+/-- a program without globals whose named functions are `simpleE` -/
+def SimpleProg (P : Prog) : Prop := P.globals = [] ∧ ∀ d ∈ P.fns, simpleE d.body = true
+
+/-- every function `P₁` knows is the same function in `P₂` -/
+def SubProg (P₁ P₂ : Prog) : Prop := ∀ f d, findFn P₁.fns f = some d → findFn P₂.fns f = some d
+
+/-- one voice: the variable it is bound to, the function called, the constant fed, the call site -/
+structure Voice where
+  name : String
+  f : String
+  c : UInt64
+  site : Nat
+deriving Repr, Inhabited
+
+/-- `let c_1 = f_1(k_1); …; out` -/
+def voicesBody : List Voice → Expr → Expr
+  | [], out => out
+  | v :: vs, out => .letE v.name (.call v.f [.lit v.c] v.site) (voicesBody vs out)
+
 /-- a program that does not compile (syntax error, …): it has no published layout, so swapping to it is refused -/
 def brokenProg : Prog := ⟨[], [], ⟨"dsp", [], .call "" [] 0, none⟩⟩
 
